@@ -25,6 +25,14 @@ def run(prop: str, tier: str) -> int:
         from . import props_repro
 
         return props_repro.run(prop, tier)
+    if prop in ("C13", "C14", "C15"):
+        from . import props_decode
+
+        return props_decode.run(prop, tier)
+    if prop == "C16":
+        from . import props_shell
+
+        return props_shell.run(prop, tier)
     raise SystemExit(f"no check registered for {prop}")
 
 
